@@ -7,5 +7,9 @@ if ! $PY -c "import hypothesis" 2>/dev/null; then
   /venv/bin/pip install --no-index --find-links /opt/veriftools/wheels hypothesis
 fi
 $PY -c "import hypothesis, asttokens; print('hypothesis', hypothesis.__version__)"
+# optional: the coverage-guided stage of the thorough tier of C06/C07 (vf/fuzz.py); skipped with a note if this fails
+if [ ! -d .deps/atheris ]; then
+  /venv/bin/pip install -q --no-index --find-links /opt/veriftools/wheels --target .deps atheris >/dev/null 2>&1 || echo "atheris not installed; thorough tiers skip the coverage-guided stage"
+fi
 mkdir -p evidence replays
 chmod +x check
